@@ -662,9 +662,10 @@ pub fn dom_tree_atomic(scenario: &str) -> Outcome {
 // C12 / C14 after DOM edit histories (bounded stand-in material): navigational views agree; keys of attached nodes are
 // non-zero and pairwise distinct
 
-pub const EDIT_SCENARIOS: [&str; 18] = [
+pub const EDIT_SCENARIOS: [&str; 19] = [
     "move_within_parent_before", "move_within_parent_append", "move_between_parents", "remove_then_reinsert",
     "remove_subtree_drop_then_set_attribute", "remove_middle_subtree_drop_then_set_attribute", "replace_child", "append_fragment_like_sequence", "split_text_then_move", "append_new_after_child_with_descendants", "set_attribute_on_element_with_children", "insert_new_before_first_child", "move_forward_within_parent", "move_before_own_next_sibling", "reappend_last_child_with_children", "move_out_of_detached_parent", "views_inside_removed_subtree", "append_child_to_element_with_late_namespace_declaration",
+    "append_after_last_descendant_with_late_namespace_declaration",
 ];
 
 pub fn dom_after_edits(scenario: &str, what: &str) -> Outcome {
@@ -813,6 +814,26 @@ pub fn dom_after_edits(scenario: &str, what: &str) -> Outcome {
                     return format!("disagreements: {:?}", bad);
                 }
             }
+            "append_after_last_descendant_with_late_namespace_declaration" => {
+                // the last descendant of the element appended to is a childless element whose namespace declaration is
+                // written AFTER a plain attribute: its last item in document order is not its last stored attribute
+                let (_, doc2) = xml_dom::XmlDocument::from_raw("<r><b><a x=\"1\" xmlns:p=\"urn:p\"/></b></r>").unwrap();
+                let r2 = doc2.document_element().unwrap();
+                let c2 = doc2.create_element("c").unwrap();
+                r2.append_child(c2.as_node()).unwrap();
+                if what == "preorder" || what == "keys" {
+                    let mut all = vec![];
+                    keys(&doc2.as_node(), &mut all);
+                    let ch = all.iter().find(|v| v.0 == "c").map(|v| v.1).unwrap_or(0);
+                    let mut bad = vec![];
+                    for (n, k) in all.iter().filter(|v| v.0 != "c") {
+                        if !(*k != 0 && *k < ch) {
+                            bad.push(format!("{}={} is not before the appended c={}", n, k, ch));
+                        }
+                    }
+                    return format!("disagreements: {:?}", bad);
+                }
+            }
             "insert_new_before_first_child" => {
                 let n = doc.create_element("n").unwrap();
                 r.insert_before(n.as_node(), Some(&a)).unwrap();
@@ -875,6 +896,7 @@ pub fn dom_after_edits(scenario: &str, what: &str) -> Outcome {
             "move_out_of_detached_parent" => "a c d #text",
             "views_inside_removed_subtree" => "a c",
             "append_child_to_element_with_late_namespace_declaration" => "a c d",
+            "append_after_last_descendant_with_late_namespace_declaration" => "a c d",
             _ => "a c d #text",
         })
     } else {
@@ -969,7 +991,7 @@ pub fn xpath_grid(rest: &[&str]) -> Vec<Args> {
 // C03: entity expansion in attribute values (info::attr_value_from_name).  A stack overflow aborts the process, so
 // the real call runs in a child process (this same binary, op `info.attr_value_inproc`) under a wall-clock limit.
 
-pub const ENTITY_DOCS: [&str; 12] = [
+pub const ENTITY_DOCS: [&str; 15] = [
     "<!DOCTYPE r [<!ENTITY a \"v\">]><r x=\"&a;\"/>",
     "<!DOCTYPE r [<!ENTITY a \"&b;\"><!ENTITY b \"w\">]><r x=\"p&a;q\"/>",
     "<!DOCTYPE r [<!ENTITY a \"&b;&b;\"><!ENTITY b \"&c;&c;\"><!ENTITY c \"z\">]><r x=\"&a;\"/>",
@@ -982,6 +1004,10 @@ pub const ENTITY_DOCS: [&str; 12] = [
     "<!DOCTYPE r [<!ENTITY a \"%p;\">]><r x=\"&a;\"/>",
     "<!DOCTYPE r [<!ENTITY a \"&nope;\">]><r x=\"&a;\"/>",
     "<r x=\"&nope;\"/>",
+    // a circle that is reachable from the referenced entity but does not pass through it
+    "<!DOCTYPE r [<!ENTITY a \"x&b;\"><!ENTITY b \"y&c;\"><!ENTITY c \"z&b;\">]><r k=\"&a;\"/>",
+    "<!DOCTYPE r [<!ENTITY a \"&b;\"><!ENTITY b \"&c;\"><!ENTITY c \"&d;\"><!ENTITY d \"&c;\">]><r k=\"&a;\"/>",
+    "<!DOCTYPE r [<!ENTITY a \"&b;&lt;\"><!ENTITY b \"&a;\">]><r k=\"&lt;\" j=\"&b;\"/>",
 ];
 
 pub fn info_attr_value_inproc(doc: &str) -> Outcome {
@@ -1014,7 +1040,7 @@ pub fn info_attr_value(doc: &str) -> Outcome {
 }
 
 // C03: parse + information set + compact print + pretty print of one document
-pub const BUILD_DOCS: [&str; 12] = [
+pub const BUILD_DOCS: [&str; 20] = [
     "<r/>",
     "<?xml version=\"1.0\"?><!-- c --><r a=\"1\"><b>t</b><![CDATA[x]]><?p q?></r>",
     "<!DOCTYPE r [<!ELEMENT r (a|b)*><!ATTLIST r x CDATA #IMPLIED><!ENTITY e \"v\"><!NOTATION n SYSTEM \"s\"><?p q?><!-- c -->]><r x=\"&e;\">&e;</r>",
@@ -1027,6 +1053,16 @@ pub const BUILD_DOCS: [&str; 12] = [
     "<!DOCTYPE r [<!ELEMENT r ((((a,b)|c)*,d)+)>]><r/>",
     "<r xmlns:p=\"u\"><p:a p:b=\"1\"/></r>",
     "not xml",
+    // attribute-list defaults that refer to entities (resolved while the DOCTYPE is being built)
+    "<!DOCTYPE r [<!ATTLIST r a CDATA \"x&amp;y\">]><r/>",
+    "<!DOCTYPE r [<!ENTITY e \"v\"><!ATTLIST r a CDATA \"&e;\" b CDATA #FIXED '&nope;'>]><r/>",
+    "<!DOCTYPE r [<!ATTLIST r a (x|y) \"x\" b NOTATION (n) #IMPLIED c ID #REQUIRED>]><r a=\"y\"/>",
+    // a single '-' followed by a multi-byte character at the end of a comment, of a PI, of CDATA
+    "<a><!-- x -\u{e9}--></a>",
+    "<a><!-- -\u{e9}",
+    "<a><?p ?\u{e9}?><![CDATA[]\u{e9}]]>]\u{1F600}</a>",
+    "<a b=\"\u{e9}&#xe9;&#233;\" c='\u{1F600}'>\u{e9}&amp;\u{1F600}</a>",
+    "<\u{e9}l\u{e9}ment \u{e9}=\"1\"/>",
 ];
 
 pub fn info_build_print_inproc(doc: &str) -> Outcome {
@@ -1100,7 +1136,7 @@ fn in_child(op: &str, doc: &str, want: &str, site: &str) -> Outcome {
 // C11: normalized attribute values (XML 1.0 3.3.3).  (document, "name=value name=value ..." of the document element, as
 // the recommendation prescribes; values shown with {:?})
 
-pub const ATTR_NORM_CASES: [(&str, &str); 14] = [
+pub const ATTR_NORM_CASES: [(&str, &str); 17] = [
     ("<r a=\"x\ty\nz\"/>", "a=\"x y z\""),
     ("<r a=\"&#9;&#10;&#13;&#32;|\"/>", "a=\"\\t\\n\\r |\""),
     ("<!DOCTYPE r [<!ENTITY e \"v w\">]><r a=\"p&e;q\"/>", "a=\"pv wq\""),
@@ -1117,6 +1153,10 @@ pub const ATTR_NORM_CASES: [(&str, &str); 14] = [
     ("<!DOCTYPE r [<!ATTLIST r a NMTOKENS #IMPLIED><!ENTITY e \" p  q \">]><r a=\"&e;&e;\"/>", "a=\"p q p q\""),
     ("<!DOCTYPE r [<!ATTLIST r a NMTOKENS #IMPLIED>]><r a=\"&#32;x&#32;&#32;y&#32;\"/>", "a=\"x y\""),
     ("<r a=\"&lt;&amp;&gt;&quot;&apos;\"/>", "a=\"<&>\\\"'\""),
+    // legal chains as long as the number of declared entities (a bound on the chain must not cut them short)
+    ("<!DOCTYPE r [<!ENTITY e1 \"1&e2;\"><!ENTITY e2 \"2&e3;\"><!ENTITY e3 \"3&e4;\"><!ENTITY e4 \"4&e5;\"><!ENTITY e5 \"5\">]><r a=\"&e1;\"/>", "a=\"12345\""),
+    ("<!DOCTYPE r [<!ENTITY e1 \"1&e2;\"><!ENTITY e2 \"2&e3;\"><!ENTITY e3 \"3&lt;\">]><r a=\"&e1;|&e1;\"/>", "a=\"123<|123<\""),
+    ("<!DOCTYPE r [<!ENTITY e \"v\">]><r a=\"&e;&e;&e;&e;&e;&e;\"/>", "a=\"vvvvvv\""),
 ];
 
 pub fn info_attr_norm(doc: &str, expected: &str) -> Outcome {
